@@ -24,18 +24,23 @@ def _alarm(*a):
 
 
 def guarded(oracle, inp, seconds=5):
+    # the watchdog counts CPU time of this process (a loop that never ends burns CPU); wall-clock time would turn a busy
+    # machine into `did not terminate`.  A generous wall-clock alarm stays as a backstop for waits that burn no CPU.
+    signal.signal(signal.SIGPROF, _alarm)
     signal.signal(signal.SIGALRM, _alarm)
-    signal.setitimer(signal.ITIMER_REAL, seconds)
+    signal.setitimer(signal.ITIMER_PROF, seconds)
+    signal.setitimer(signal.ITIMER_REAL, seconds * 40)
     try:
         return oracle(inp)
     except Timeout:
-        return 'did not terminate within %ss (watchdog)' % seconds
+        return 'did not terminate within %ss of CPU time (watchdog)' % seconds
     except Exception as ex:      # the library raised where the property promises a result
         import traceback
         tb = traceback.extract_tb(ex.__traceback__)
         where = '%s:%s' % (tb[-1].filename.split('/')[-1], tb[-1].lineno) if tb else '?'
         return 'unexpected-exception: %s: %s (at %s)' % (type(ex).__name__, str(ex)[:200], where)
     finally:
+        signal.setitimer(signal.ITIMER_PROF, 0)
         signal.setitimer(signal.ITIMER_REAL, 0)
 
 
